@@ -599,6 +599,22 @@ func (m *monitor) after(n *node, desc string) {
 		return
 	}
 	vs := d.VerifSnapshot()
+	// C05: a payload for a future height (or a future view of this height) must be kept for the epoch it belongs to
+	if strings.HasPrefix(desc, "M ") {
+		var typ, h, v, idx int
+		f := strings.Fields(desc)
+		fmt.Sscanf(f[1], "%d", &typ)
+		fmt.Sscanf(f[2], "%d", &h)
+		fmt.Sscanf(f[3], "%d", &v)
+		fmt.Sscanf(f[4], "%d", &idx)
+		kind := map[int]string{32: "prepare", 33: "prepare", 0: "chViews", 49: "preCommit", 48: "commit"}[typ]
+		if kind != "" && idx < len(d.Validators) && uint32(h) > t.heightBefore && d.BlockIndex == t.heightBefore {
+			m.tick("C05")
+			if _, ok := vs.Cache[uint32(h)][kind][uint16(idx)]; !ok {
+				m.nhit(n, "C05", "future-payload-not-kept", fmt.Sprintf("node %d at height %d dropped a payload of type %d for the future height %d", n.id, d.BlockIndex, typ, h))
+			}
+		}
+	}
 	// C10
 	if n.honestValidator() && !vs.BlockProcessed {
 		m.tick("C10")
